@@ -366,6 +366,32 @@ def erase(t, ids=True, generics=False):
     return tmap(t, f)
 
 
+def lt_skeleton(t):
+    """Everything but generic names, fn-pointer parameter names and lifetimes — except whether a lifetime is 'static."""
+    def f(n):
+        (tag, v), = n.items()
+        if tag in ("Path", "TypeAlias"):
+            args = []
+            for a in v["generic_arguments"]:
+                if "Lifetime" in a:
+                    args.append({"Lifetime": "Static" if a["Lifetime"] == "Static" else "*"})
+                elif "TypeParameter" in a:
+                    args.append({"TypeParameter": tmap(a["TypeParameter"], f)})
+                else:
+                    args.append(copy.deepcopy(a))
+            return {tag: dict(v, generic_arguments=args)}
+        if tag == "Reference":
+            return {tag: dict(v, lifetime="Static" if v["lifetime"] == "Static" else "*", inner=tmap(v["inner"], f))}
+        if tag == "FunctionPointer":
+            return {tag: {"inputs": [{"name": None, "type_": tmap(i["type_"], f)} for i in v["inputs"]],
+                          "output": None if v["output"] is None else tmap(v["output"], f),
+                          "abi": v["abi"], "is_unsafe": v["is_unsafe"]}}
+        if tag == "Generic":
+            return {"Generic": {"name": "*"}}
+        return None
+    return tmap(t, f)
+
+
 def strip(t):
     """What survives rendering to source: no package id, no rustdoc id, aliases are paths."""
     def f(n):
@@ -418,6 +444,9 @@ def oracle(case, out):
         return "CanonicalType equality disagrees with equality of the canonical types"
     if out["canon_eq_ab"] and out["eq_ab"] is None:
         return "a and b have equal canonical forms but are not equivalent"
+    if out["canon_eq_ab"] != (out["eq_ab"] is not None and lt_skeleton(a) == lt_skeleton(b)):
+        return "canonical forms are not complete: canon(a) == canon(b) is %s but equivalent=%s and same static-lifetime skeleton=%s" % (
+            out["canon_eq_ab"], out["eq_ab"] is not None, lt_skeleton(a) == lt_skeleton(b))
     if out["same_ab"] != (a == b):
         return "`==` on Type disagrees with structural equality of the inputs"
     if out["same_ab"] and not out["canon_eq_ab"]:
@@ -478,3 +507,6 @@ def run(R):
              "(non-identifier names, empty paths, unknown packages); non-trivial = template match with non-empty bindings on a concrete type, or equivalence of "
              "different types with a non-empty renaming, or equal canonical forms of different types, or a well-formed type of >= 4 nodes read back by syn; distinct by full input",
     )
+    if R.tier == "thorough" and not R.replay:
+        if not pxvlib.leanchecker(R, ["Pxv.Thm.C17"]):
+            R.violation("leanchecker rejects the compiled theorem module Pxv.Thm.C17", {"module": "Pxv.Thm.C17"}, no_failing_input=True)
